@@ -83,4 +83,21 @@ def writes (pre : Bytes) : Bool → List (Bytes × Under) → Bytes × List (Int
     let (outR, resR) := writes pre o.partial_ rest
     (o.reached ++ outR, (o.n, o.err) :: resR)
 
+/-- Two stacked writers: `outer = NewWriter(inner, p2)`, `inner = NewWriter(sink, p1)`, with Write
+calls addressed to either of them in any interleaving (all successful). What the outer writer hands
+down is what it writes to the inner one. Returns what reaches the sink and the count each call
+returns. `true` = the call goes to the outer writer. -/
+def nestedWrites (p1 p2 : Bytes) : (pin pout : Bool) → List (Bool × Bytes) → Bytes × List Int
+  | _, _, [] => ([], [])
+  | pin, pout, (toOuter, buf) :: rest =>
+    if toOuter then
+      let o := write p2 pout buf none
+      let i := write p1 pin o.handed none
+      let (outR, resR) := nestedWrites p1 p2 i.partial_ o.partial_ rest
+      (i.reached ++ outR, o.n :: resR)
+    else
+      let i := write p1 pin buf none
+      let (outR, resR) := nestedWrites p1 p2 i.partial_ pout rest
+      (i.reached ++ outR, i.n :: resR)
+
 end Goyang.Model.Indent
